@@ -53,6 +53,7 @@ pub fn main() {
             "e2e" | "e2e_filter" | "e2e_fn" | "e2e_cmp" => checks::group_e2e_named(g, tier, seed, only),
             "requery" => checks::group_requery(tier, seed, only),
             "purity" => checks::group_purity(tier, seed, only),
+            "helpers" => helpers_check::group_helpers(tier, seed, only),
             "purity_x" => checks::group_purity_x(tier, seed, only),
             "text_arith" | "text_filter" | "text_plain" | "text_union" => checks::group_text(g, tier, seed, only),
             "descendant" => checks::group_descendant(tier, seed, only),
